@@ -1,16 +1,16 @@
 #!/bin/sh
-# Offline warm-up: compile the harness libraries and every property program once
-# (with the race detector where the driver uses it) so that quick checks start
-# from a warm build cache. Everything comes from files on disk / the module cache.
-set -e
+# Offline warm-up: compile the harness libraries and every claimed property
+# program once (with the race detector where the driver uses it) so that quick
+# checks start from a warm build cache. Everything comes from files on disk /
+# the module cache; nothing is fetched.
 export GOFLAGS=-mod=mod GOPROXY=off GOSUMDB=off GOTOOLCHAIN=local
-cd "$(dirname "$0")/harness"
+cd "$(dirname "$0")/harness" || exit 1
 mkdir -p ../.bin ../evidence/replay
-go build -tags verif ./... 
-go build -tags verif -race ./lib/... 
-for d in cmd/*/; do
-  id=$(basename "$d")
-  if grep -q "\"$(echo $id | tr a-z A-Z)\": dict(race=True" ../check; then
+go build -tags verif ./lib/... || exit 1
+for ID in $(cat ../tools/built.txt); do
+  id=$(echo "$ID" | tr A-Z a-z)
+  [ -d "cmd/$id" ] || continue
+  if grep -q "\"$ID\": dict(race=True" ../check; then
     go build -tags verif -race -o ../.bin/$id-race ./cmd/$id || exit 1
   else
     go build -tags verif -o ../.bin/$id ./cmd/$id || exit 1
